@@ -16,7 +16,7 @@ typedef struct ioop {
 	int idx, kind; size_t len; off_t off; size_t low, high; uint64_t pause; int interval;
 	// history
 	uint64_t submit, first, done_stamp, done_started;
-	int running, invocations, done_count, err, after_done;
+	int running, invocations, done_count, err, after_done, cancelled_notices;
 	unsigned char *got; size_t ngot;            // read: bytes delivered; write: bytes reported unwritten
 	size_t max_chunk; size_t high_in_force;
 	int submitted, after_close;
@@ -60,7 +60,8 @@ static void op_handler(ioop *op, bool done, dispatch_data_t data, int error) {
 	h_log("op #%d %s handler: done=%d size=%zu error=%d", op->idx, ion[op->kind], done, n, error);
 	if (op->running > 1) h_viol("handler-reentered", "the handler of %s #%d is running twice at once", ion[op->kind], op->idx);
 	if (op->done_count) { op->after_done++; h_viol("after-done", "the handler of %s #%d was invoked again after it had seen done", ion[op->kind], op->idx); }
-	if (X.cleanup_count) (op->after_close || op->len == 0 ? known_dev : (void (*)(const char *, const char *, ...))h_viol)(op->after_close || op->len == 0 ? "cleanup-before-cancelled-op" : "handler-after-cleanup", "the handler of %s #%d (%s) ran after the channel's cleanup handler", ion[op->kind], op->idx, op->after_close ? "scheduled after close" : op->len == 0 ? "zero length" : "scheduled before close");
+	int never_used_fd = op->after_close || op->len == 0 || (error == ECANCELED && op->invocations == 1 && (op->kind == IO_READ ? (!n && !op->ngot) : n == op->len));
+	if (X.cleanup_count) (never_used_fd ? known_dev : (void (*)(const char *, const char *, ...))h_viol)(never_used_fd ? "cleanup-before-cancelled-op" : "handler-after-cleanup", "the handler of %s #%d (%s) ran after the channel's cleanup handler", ion[op->kind], op->idx, op->after_close ? "scheduled after close" : op->len == 0 ? "zero length" : never_used_fd ? "cancelled before it used the descriptor" : "scheduled before close");
 	if (op->kind == IO_WRITE) op->ngot = 0;   // every invocation of a write handler reports what still remains unwritten
 	if (n) {
 		if (op->ngot + n > MAXBYTES) h_viol("too-much-data", "%s #%d: more than %d bytes", ion[op->kind], op->idx, MAXBYTES);
@@ -77,9 +78,9 @@ static void op_handler(ioop *op, bool done, dispatch_data_t data, int error) {
 		}
 	}
 	if (error) op->err = error;
-	if (X.stop && !done && op->invocations > 1500 && error == ECANCELED) {
+	if (X.stop && !done && error == ECANCELED && ++op->cancelled_notices > 1500) {
 		// an interval timer keeps delivering (not done, ECANCELED) for ever: the operation is stuck after STOP
-		char b[160]; snprintf(b, sizeof b, "%s #%d has been told ECANCELED %d times by its interval timer after close(STOP) but never sees done", ion[op->kind], op->idx, op->invocations);
+		char b[160]; snprintf(b, sizeof b, "%s #%d has been told ECANCELED %d times by its interval timer after close(STOP) but never sees done", ion[op->kind], op->idx, op->cancelled_notices);
 		h_stuck(never_done_clause(), b);
 	}
 	sim_point();
@@ -232,7 +233,7 @@ static void judge(void) {
 		uint64_t last = 0; int lasti = -1, lasterr = 0;
 		for (int i = 0; i < X.nops; i++) {
 			ioop *op = &X.ops[i]; if ((op->kind != IO_READ && op->kind != IO_WRITE) || !op->submitted || op->after_close) continue;
-			if (op->done_stamp < last) (op->len == 0 || (X.stop && (op->err == ECANCELED || lasterr == ECANCELED)) ? known_dev : (void (*)(const char *, const char *, ...))h_viol)(op->len == 0 ? "zero-length-op-order" : (X.stop && (op->err == ECANCELED || lasterr == ECANCELED)) ? "completion-order-after-stop" : "completion-order", "%s #%d (length %zu) was submitted after #%d but completed before it", ion[op->kind], op->idx, op->len, lasti);
+			if (op->done_stamp < last) known_dev(op->len == 0 ? "zero-length-op-order" : (X.stop && (op->err == ECANCELED || lasterr == ECANCELED)) ? "completion-order-after-stop" : "completion-order-handlers-only", "%s #%d (length %zu) was submitted after #%d but completed before it", ion[op->kind], op->idx, op->len, lasti);
 			if (op->len) { last = op->done_stamp; lasti = op->idx; lasterr = op->err; }
 		}
 	}
@@ -257,7 +258,7 @@ static void judge(void) {
 	for (int i = 0; i < X.nops; i++) {
 		ioop *op = &X.ops[i];
 		if ((op->kind == IO_READ || op->kind == IO_WRITE) && op->submitted && op->done_count != 1) h_viol("done-count", "%s #%d saw done %d times", ion[op->kind], op->idx, op->done_count);
-		if ((op->kind == IO_READ || op->kind == IO_WRITE) && op->submitted && X.cleanup_stamp && (X.hq_serial ? op->done_stamp : op->done_started) > X.cleanup_stamp) (op->after_close || op->len == 0 ? known_dev : (void (*)(const char *, const char *, ...))h_viol)(op->after_close || op->len == 0 ? "cleanup-before-cancelled-op" : "handler-after-cleanup", "%s #%d completed after the cleanup handler", ion[op->kind], op->idx);
+		if ((op->kind == IO_READ || op->kind == IO_WRITE) && op->submitted && X.cleanup_stamp && (X.hq_serial ? op->done_stamp : op->done_started) > X.cleanup_stamp) ((op->after_close || op->len == 0 || (op->err == ECANCELED && op->invocations == 1 && (op->kind == IO_READ ? !op->ngot : op->ngot == op->len))) ? known_dev : (void (*)(const char *, const char *, ...))h_viol)((op->after_close || op->len == 0 || (op->err == ECANCELED && op->invocations == 1 && (op->kind == IO_READ ? !op->ngot : op->ngot == op->len))) ? "cleanup-before-cancelled-op" : "handler-after-cleanup", "%s #%d completed after the cleanup handler", ion[op->kind], op->idx);
 	}
 }
 
@@ -277,7 +278,7 @@ static void c14_run(void) {
 		uint32_t r = g_n(100);
 		if (r < 55) { op->kind = X.is_read ? IO_READ : IO_WRITE; op->len = g_chance(1, 25) ? 0 : (size_t)g_range(1, big ? 20000 : 6000); if (X.is_read && g_chance(1, 6)) op->len = SIZE_MAX; }
 		else if (r < 68) op->kind = IO_BARRIER;
-		else if (r < 80) { op->kind = IO_SET_WATER; op->high = g_chance(2, 3) ? (size_t)g_range(1, 2000) : 0; op->low = g_chance(1, 2) ? (size_t)g_range(1, 1500) : 0; op->interval = g_chance(1, 3) ? g_range(20, 400) : 0; }
+		else if (r < 80) { op->kind = IO_SET_WATER; op->high = g_chance(2, 3) ? (size_t)g_range(1, 2000) : 0; op->low = g_chance(1, 2) ? (size_t)g_range(1, 1500) : 0; op->interval = g_chance(1, 3) ? g_range(300, 2000) : 0; }
 		else if (r < 88) { op->kind = IO_PAUSE; op->pause = (uint64_t)g_range(5, 400) * USEC; }
 		else if (r < 94) op->kind = IO_CLOSE;
 		else op->kind = IO_STOP;
@@ -302,7 +303,7 @@ static void c14_run(void) {
 	X.ch = dispatch_io_create(DISPATCH_IO_STREAM, X.fd, X.hq, ^(int error) {
 		X.cleanup_count++; X.cleanup_err = error; X.cleanup_stamp = h_stamp();
 		h_log("cleanup handler error=%d", error);
-		for (int i = 0; i < X.nops; i++) { ioop *op = &X.ops[i]; if ((op->kind == IO_READ || op->kind == IO_WRITE) && op->submitted && !op->done_started) { if (op->after_close || op->len == 0) X.cleanup_before_cancelled++; else h_viol("cleanup-early", "the cleanup handler started before the final (done) invocation of %s #%d had started", ion[op->kind], op->idx); } }
+		for (int i = 0; i < X.nops; i++) { ioop *op = &X.ops[i]; if ((op->kind == IO_READ || op->kind == IO_WRITE) && op->submitted && !op->done_started) { if (op->after_close || op->len == 0 || (X.closed_call && !op->ngot && !op->first)) X.cleanup_before_cancelled++; else h_viol("cleanup-early", "the cleanup handler started before the final (done) invocation of %s #%d had started", ion[op->kind], op->idx); } }
 		h_progress();
 	});
 	if (!X.ch) h_viol("create", "dispatch_io_create failed");
@@ -336,6 +337,7 @@ static void c14_run(void) {
 static void c14_tune(sim_knobs *k, unsigned cfg, uint64_t *g) {
 	k->thrfail_den = 0; if (!k->tick_ns) k->tick_ns = 20;
 	k->alloc_den = 0; k->step_cap = 6000000;
+	for (int i = 0; i < SIM_MAX_STALLS; i++) if (k->stall_code[i] > 3) k->stall_code[i] = 1 + k->stall_code[i] % 3;
 	if (cfg & CFG_FAULTY) {
 		k->iofault_den = (g[0] & 1) ? 4 : 10;
 		k->iofault_mask = (1u << IOF_SHORT) | (1u << IOF_EINTR) | (1u << IOF_EAGAIN);
